@@ -45,9 +45,78 @@ def sortPairs (l : List (Bytes × Bytes)) : List (Bytes × Bytes) := l.foldl (fu
 def pairsS (l : List (Bytes × Bytes)) : String :=
   if l.isEmpty then "-" else String.intercalate "," (l.map fun kv => hexOf kv.1 ++ "=" ++ hexOf kv.2)
 
-abbrev St := Gen.CR Nat
+/-- state of a case: a route cache, and a response writer with the scripted answers of the writer below it -/
+structure St where
+  cr : Gen.CR Nat
+  rw : Gen.RW
+  script : List (Nat × Bool)
 
-def step (c : St) : List String → St × String
+def evS : WEv → String
+  | .writeHeader c => "wh:" ++ toString c
+  | .write b n e => "wr:" ++ hexOf b ++ ":" ++ toString n ++ ":" ++ (if e then "1" else "0")
+  | .flush => "fl"
+
+def parseScript (s : String) : Option (List (Nat × Bool)) :=
+  if s = "-" then some [] else
+  (s.splitOn ",").mapM fun x =>
+    match x.splitOn ":" with
+    | [n, e] => match n.toNat? with | some n => some (n, e == "1") | none => none
+    | _ => none
+
+def stepC (c : Gen.CR Nat) : List String → Option (Gen.CR Nat × String)
+  | ["cnew", cap] => match cap.toInt? with | some n => some (Tie.genNew n, "ok") | none => none
+  | ["cset", k, id] =>
+    match unhex k, id.toNat? with
+    | some k, some id => some ((Gen.CR.Set c k (some id)).1, boolS (Gen.CR.Set c k (some id)).2)
+    | _, _ => none
+  | ["cget", k] =>
+    match unhex k with
+    | some k =>
+      let r := Gen.CR.Get c k
+      some (r.1, if r.2.2 then (match r.2.1 with | some id => toString id | none => "nil") else "miss")
+    | none => none
+  | ["cdel", k] => match unhex k with | some k => some ((Gen.CR.Delete c k).1, boolS (Gen.CR.Delete c k).2) | none => none
+  | ["chas", k] => match unhex k with | some k => some ((Gen.CR.Has c k).1, boolS (Gen.CR.Has c k).2) | none => none
+  | ["clen"] => some (c, toString (Gen.CR.Len c))
+  | ["ckeys"] => some (c, hexList (c.list.items.map (·.key)))
+  | _ => none
+
+/-- the response writer: `winit <script>` = `responseWriter.reset`, then its methods -/
+def stepW (st : St) : List String → Option (St × String)
+  | ["winit", sc] =>
+    match parseScript sc with
+    | some sc => some ({ st with rw := Gen.RW.reset { status := 0, length := 0, log := [] } (), script := sc }, "ok")
+    | none => none
+  | ["wh", code] =>
+    match code.toInt? with
+    | some c => some ({ st with rw := Gen.RW.WriteHeader st.rw c }, "ok")
+    | none => none
+  | ["wr", b] =>
+    match unhex b with
+    | some b =>
+      let (ans, rest) : (Int × Bool) × List (Nat × Bool) :=
+        match st.script with
+        | [] => ((b.length, false), [])
+        | (acc, e) :: t => (((min acc b.length : Nat), e), t)
+      -- the writer below is only asked when the header is (or gets) committed: always, for Write
+      let r := Gen.RW.Write st.rw b ans
+      some ({ st with rw := r.1, script := rest }, toString r.2.1 ++ " " ++ (if r.2.2 then "1" else "0"))
+    | none => none
+  | ["fl"] => some ({ st with rw := Gen.RW.Flush st.rw }, "ok")
+  | ["wend"] => some ({ st with rw := Gen.RW.ensureWriteHeader st.rw }, "ok")
+  | ["wst"] =>
+    some (st, toString (Gen.RW.Status st.rw) ++ " " ++ toString (Gen.RW.Length st.rw) ++ " " ++ boolS (Gen.RW.Written st.rw) ++ " " ++
+      (if st.rw.log.isEmpty then "-" else String.intercalate "," (st.rw.log.map evS)))
+  | _ => none
+
+def step (st : St) (toks : List String) : St × String :=
+  match stepC st.cr toks with
+  | some (cr, out) => ({ st with cr := cr }, out)
+  | none =>
+  match stepW st toks with
+  | some r => r
+  | none => stepP st.cr toks |> fun r => ({ st with cr := r.1 }, r.2)
+where stepP (c : Gen.CR Nat) : List String → Gen.CR Nat × String
   | ["fmtpath", s, p] =>
     match unhex p with
     | some p =>
@@ -100,7 +169,8 @@ def step (c : St) : List String → St × String
   | ["ckeys"] => (c, hexList (c.list.items.map (·.key)))
   | _ => (c, "bad-op")
 
-def genCodeEngine : Engine := { σ := St, init := Tie.genNew 0, step := step }
+def genCodeEngine : Engine :=
+  { σ := St, init := { cr := Tie.genNew 0, rw := Gen.RW.reset { status := 0, length := 0, log := [] } (), script := [] }, step := step }
 
 end Rux.Drv.GenCodeE
 
